@@ -25,8 +25,10 @@ ShardPats == << <<<<0, 0>>>>, <<<<4, 12>>>>, <<<<3, 12>>, <<0, 0>>, <<8, 0>>>>, 
 Strats == << [class |-> "simple", rf |-> 1], [class |-> "simple", rf |-> 2], [class |-> "simple", rf |-> 3],
              [class |-> "nts", rf |-> [dc1 |-> 1]], [class |-> "nts", rf |-> [dc1 |-> 2, dc2 |-> 1]],
              [class |-> "nts", rf |-> [dc1 |-> 1, dc2 |-> 1, dc3 |-> 1]], [class |-> "nts", rf |-> [dc2 |-> 1]] >>
-Policies == << [prefer_dc |-> "", prefer_rack |-> "", failover |-> 0], [prefer_dc |-> "dc1", prefer_rack |-> "", failover |-> 0],
-               [prefer_dc |-> "dc1", prefer_rack |-> "r1", failover |-> 1], [prefer_dc |-> "dc2", prefer_rack |-> "", failover |-> 1] >>
+\* where: the location preference is given to the DefaultPolicy ("policy") or to the session, the policy holding none ("session")
+Policies == << [prefer_dc |-> "", prefer_rack |-> "", failover |-> 0, where |-> "policy"], [prefer_dc |-> "dc1", prefer_rack |-> "", failover |-> 0, where |-> "policy"],
+               [prefer_dc |-> "dc1", prefer_rack |-> "r1", failover |-> 1, where |-> "policy"], [prefer_dc |-> "dc2", prefer_rack |-> "", failover |-> 1, where |-> "policy"],
+               [prefer_dc |-> "dc1", prefer_rack |-> "", failover |-> 1, where |-> "session"], [prefer_dc |-> "dc2", prefer_rack |-> "r1", failover |-> 0, where |-> "session"] >>
 Pools == << [kind |-> "per_shard", n |-> 1], [kind |-> "per_host", n |-> 1], [kind |-> "per_host", n |-> 2] >>
 Nodes(li, vn, sp, down) ==
   LET L == Layouts[li]  P == ShardPats[sp] IN
@@ -46,9 +48,16 @@ Init ==
   \/ \E li \in 1..Len(Layouts) : \E vn \in 1..2 : \E sp \in 1..Len(ShardPats) : \E st \in 1..Len(Strats) : \E po \in 1..Len(Policies) :
        \E dn \in 0..2 : \E pl \in 1..Len(Pools) :
          /\ Full \/ Pick(li, vn, sp, st, po, dn, pl)
-         /\ c = [nodes |-> Nodes(li, vn, sp, dn), strategy |-> Strats[st], pool |-> Pools[pl], policy |-> Policies[po], tablets |-> "none", rounds |-> 1]
-  \/ \E vn \in 1..2 : \E dn \in {0, 3} : \E po \in {1, 2} :
-         c = [nodes |-> Nodes(3, vn, 2, dn), strategy |-> Strats[4], pool |-> Pools[1], policy |-> Policies[po], tablets |-> Tablets3, rounds |-> 2]
+         /\ c = [nodes |-> Nodes(li, vn, sp, dn), strategy |-> Strats[st], pool |-> Pools[pl], policy |-> Policies[po], tablets |-> "none", rounds |-> 1,
+                 nat |-> 0, initial_tablets |-> 1, refresh |-> 0]
+  \* a NAT rewrites the source ports: shard-aware-port connections land on another shard than the driver asked for
+  \/ \E li \in {2, 3, 5} : \E sp \in {2, 4} : \E st \in {1, 2, 5} : \E nat \in {1, 3} :
+         c = [nodes |-> Nodes(li, 1, sp, 0), strategy |-> Strats[st], pool |-> Pools[1], policy |-> Policies[1], tablets |-> "none", rounds |-> 1,
+              nat |-> nat, initial_tablets |-> 1, refresh |-> 0]
+  \* tablets: ScyllaDB reports initial_tablets = 0 for `tablets = {'enabled': true}`; what was learned must survive a metadata refresh
+  \/ \E vn \in 1..2 : \E dn \in {0, 3} : \E po \in {1, 2} : \E it \in {0, 1} : \E rf \in {0, 1} :
+         c = [nodes |-> Nodes(3, vn, 2, dn), strategy |-> Strats[4], pool |-> Pools[1], policy |-> Policies[po], tablets |-> Tablets3, rounds |-> 2,
+              nat |-> 0, initial_tablets |-> it, refresh |-> rf]
 Next == UNCHANGED c
 Spec == Init /\ [][Next]_c
 Emit == PrintT(<<"SCEN", ToJson(c)>>)
